@@ -62,11 +62,18 @@ Proj(v) == LET keep == SelectSeq(v, LAMBDA x : x.k # "vglue") IN
 Breaks(e) == [j \in 1..Len(e.bps) |-> e.bps[j] + 1]
 LinesOk(e, D) == LET r == PLB(e.list, Breaks(e), e.P, D) IN r.ok /\ Proj(e.v) = r.v
 
+\* the same paragraph appended to a vertical list that is not empty (the one its first run made): the same boxes
+\* and penalties again - TeX 890 counts the lines of the paragraph, not the items of the list - behind the
+\* interline glue that now precedes its first line too (Proj leaves interline glue out)
+AgainOk(e) == ("v_again" \in DOMAIN e /\ e.v # <<>>) =>
+                 /\ e.v_again # <<>> /\ e.v_again[1].k = "vglue"
+                 /\ Proj(e.v_again) = Proj(e.v)
 Clause(e, D) ==
   IF "panic" \in DOMAIN e THEN "panic"
   ELSE IF ~ParEndOk(e) THEN "par_end"
   ELSE IF ~SpellingOk(e) THEN "spelling"
   ELSE IF ~LinesOk(e, D) THEN "lines"
+  ELSE IF ~AgainOk(e) THEN "appended_paragraph_differs"
   ELSE ""
 
 \* the first line on which TeX and the code differ (diagnostic only)
